@@ -158,6 +158,27 @@ void cv_antimeridian_cells(CellVec *c, int res, int n) {
     }
 }
 
+/* cells in a band on both sides of every icosahedron edge: nT positions along each edge (its midpoint - the point of the edge
+ * closest to the two face centres -, a point near the midpoint, near an end, random ones), 13 offsets from 1e-9 to 3e-3 rad */
+void cv_icosa_band_cells(CellVec *c, int res, int nT) {
+    static const double OFF[] = {1e-9, 1e-8, 1e-7, 1e-6, 1e-5, 3e-5, 1e-4, 2e-4, 3e-4, 4.5e-4, 6e-4, 1e-3, 3e-3};
+    H3Index p[12]; LatLng g[12]; double v[12][3];
+    getPentagons(0, p);
+    for (int i = 0; i < 12; i++) { cellToLatLng(p[i], &g[i]); v[i][0] = cos(g[i].lat) * cos(g[i].lng); v[i][1] = cos(g[i].lat) * sin(g[i].lng); v[i][2] = sin(g[i].lat); }
+    for (int i = 0; i < 12; i++) for (int j = i + 1; j < 12; j++) {
+        if (greatCircleDistanceRads(&g[i], &g[j]) > 1.2) continue;
+        double nx = v[i][1] * v[j][2] - v[i][2] * v[j][1], ny = v[i][2] * v[j][0] - v[i][0] * v[j][2], nz = v[i][0] * v[j][1] - v[i][1] * v[j][0], nn = sqrt(nx * nx + ny * ny + nz * nz); nx /= nn; ny /= nn; nz /= nn;
+        for (int s = 0; s < nT; s++) {
+            double t = s == 0 ? 0.5 : s == 1 ? 0.5 + 0.03 * (vt_rand01() - 0.5) : s == 2 ? 0.02 + 0.1 * vt_rand01() : vt_rand01();
+            double m[3]; for (int q = 0; q < 3; q++) m[q] = (1 - t) * v[i][q] + t * v[j][q];
+            for (int o = 0; o < 13; o++) for (int sg = -1; sg <= 1; sg += 2) {
+                double w[3] = {m[0] + sg * OFF[o] * nx, m[1] + sg * OFF[o] * ny, m[2] + sg * OFF[o] * nz}; double wn = sqrt(w[0] * w[0] + w[1] * w[1] + w[2] * w[2]);
+                LatLng ll = {asin(w[2] / wn), atan2(w[1], w[0])}; H3Index h; if (!latLngToCell(&ll, res, &h)) cv_push(c, h);
+            }
+        }
+    }
+}
+
 uint64_t vt_mutate_word(uint64_t h) {
     switch (vt_randn(9)) {
         case 0: return h ^ ((uint64_t)1 << vt_randn(64));
